@@ -34,6 +34,10 @@ def wrapI64 (i : Int) : Int := toSigned 8 (i % (2 ^ 64 : Nat)).toNat
     i.e. SIGNED — the key under which `TypeParser` files a variant of a Rust enum -/
 def discrKey (w raw : Nat) : Int := toSigned w raw
 
+/-- `Die::const_value` (unit/die.rs) on a `DW_FORM_udata` constant: gimli's `sdata_value` of an unsigned value is
+    `i64::try_from(v).ok()`; an enumerator without key is dropped from the table of a C-like enum -/
+def constKey (raw : Nat) : Option Int := if raw < 2 ^ 63 then some (raw : Int) else none
+
 /-! ## the type graph (what `TypeParser` produced) -/
 
 structure Member where
